@@ -434,7 +434,8 @@ Bytes ProtoRun::craft(int dir, const Op &op, bool &is_mod, std::string &kind) {
     if (k == "replay" || k == "relabel") {
         auto &cap = w.captured[dir];
         if (cap.empty()) { return Bytes(); }
-        Record r = cap[(uint64_t) op.b % cap.size()];
+        // b < 0 counts from the newest captured record (-1 = the record this direction emitted last)
+        Record r = op.b < 0 ? cap[cap.size() - (size_t) std::min<uint64_t>((uint64_t) -op.b, cap.size())] : cap[(uint64_t) op.b % cap.size()];
         if (k == "relabel") { static const unsigned char T[] = { 23, 22, 21, 20 }; unsigned char nt = T[(uint64_t) op.c % 4]; if (nt == r.raw[0]) { nt = (unsigned char) (nt == 23 ? 22 : 23); } r.raw[0] = nt; }
         return r.raw;
     }
